@@ -1,8 +1,9 @@
 #!/venv/bin/python
 """Print a markdown table of what the last run of every check covered (from evidence/*.json and growth/*.json)."""
-import glob, json, os
+import glob, json, os, sys
 rows = []
-for p in sorted(glob.glob('/verif/evidence/C*.json')) + sorted(glob.glob('/verif/growth/G*.json')):
+EV = sys.argv[1] if len(sys.argv) > 1 else '/verif/evidence'
+for p in sorted(glob.glob(EV + '/C*.json')) + sorted(glob.glob('/verif/growth/G*.json')):
     e = json.load(open(p))
     c = e['coverage']
     rows.append((e['property_id'], e['tier'], e['wall_s'], c.get('states', 0), c.get('evaluations', 0),
